@@ -15,10 +15,10 @@ RULE = ("exhaustive: every table type (every bnpdataclass of bionumpy.datatypes 
         "side incl. empty operands, sort_by each sortable field, replace each field, add_fields, invalid index / mask / length) "
         "x every final conversion (tolist, iteration, todict/from_dict, pandas round trip, from_entry_tuples); then seeded random "
         "programs of 2-6 operations on 0..12 rows; rows<->table round trips (incl. no rows, wrong width); constructions with a "
-        "column of the wrong length / undecodable content. Non-trivial = >= 2 ops on a table with >= 2 column kinds, or an empty "
+        "column of the wrong length / undecodable content. sort_by orders numeric fields by value and text fields as byte strings. Non-trivial = >= 2 ops on a table with >= 2 column kinds, or an empty "
         "/ single-row operand")
 EXHAUSTIVE = {"quick": False, "thorough": False}
-MODEL_OPS = {"program", "roundtrip"}      # "program_encsort" (sort_by an encoded text column) is impl-vs-oracle only
+MODEL_OPS = {"program", "roundtrip"}
 ASSUMPTIONS = [
     "per-column indexing / concatenation (NumPy, npstructures RaggedArray, EncodedArray, StringArray) has its list-level meaning",
     "Python-level index normalisation (negative ints, slice.indices) is the runtime's: the model receives index lists",
@@ -211,6 +211,12 @@ class Raise(Exception):
     pass
 
 
+def _skey(kind, code):
+    """what sort_by orders by: the number for numeric fields, the text (as bytes) for text fields"""
+    v = cell(kind, code)
+    return v.encode() if isinstance(v, str) else v
+
+
 def _apply_rows(width, rows, op):
     k = op["k"]
     n = len(rows)
@@ -231,7 +237,7 @@ def _apply_rows(width, rows, op):
     if k == "sort":
         if op["j"] >= width:
             raise Raise()
-        return width, sorted(rows, key=lambda r: r[op["j"]])
+        return width, sorted(rows, key=lambda r: _skey(op["kind"], r[op["j"]]))
     if k == "replace":
         if width == 1 and op["j"] == 0:
             return 1, [[x] for x in op["c"]]        # the only column: any length is a valid table
@@ -253,7 +259,7 @@ def _run_rows(width, rows, ops):
 
 
 def oracle(c):
-    if c["op"] in ("program", "program_encsort"):
+    if c["op"] in ("program",):
         width = len(c["cols"])
         rows = [list(r) for r in zip(*c["cols"])]
         try:
@@ -278,7 +284,7 @@ def oracle(c):
 # ---------------------------------------------------------------- cases
 
 FINALS = ["tolist", "iter", "dict", "pandas", "tuples"]
-SORTABLE = {"int", "float", "opt", "sid"}
+SORTABLE = {"int", "float", "opt", "sid", "str", "dna"}
 ADDABLE = ["int", "str", "float"]
 
 
@@ -303,8 +309,8 @@ def _single_ops(kinds, n, rng):
         ops.append({"k": "concat", "other": o})
         ops.append({"k": "concatL", "other": o})
     for j, k in enumerate(kinds):
-        if k in SORTABLE or k in ("str", "dna"):
-            ops.append({"k": "sort", "j": j})
+        if k in SORTABLE:
+            ops.append({"k": "sort", "j": j, "kind": k})
         ops.append({"k": "replace", "j": j, "c": [50 + i for i in range(n)]})
     if w >= 2:
         ops.append({"k": "replace", "j": 0, "c": [50 + i for i in range(n + 1)]})  # wrong length
@@ -355,7 +361,8 @@ def _random_program(kinds, rng, nmax):
             cand = [j for j, k in enumerate(kinds) if k in SORTABLE]
             if not cand:
                 continue
-            op = {"k": "sort", "j": rng.choice(cand)}
+            j = rng.choice(cand)
+            op = {"k": "sort", "j": j, "kind": kinds[j]}
         elif what == "replace":
             j = rng.randrange(width)
             op = {"k": "replace", "j": j, "c": new(n) if rng.random() < 0.7 else [rows[rng.randrange(n)][j] for _ in range(n)]}
@@ -414,8 +421,7 @@ def cases(tier, rng):
             yield {"op": "program", "type": tname, "cols": cols, "ops": [], "final": "all"}
             for i, op in enumerate(_single_ops(kinds, n, rng)):
                 fin = "all" if (big or tname.startswith("D_")) else FINALS[(i + n) % len(FINALS)]
-                enc = op["k"] == "sort" and kinds[op["j"]] in ("str", "dna")
-                yield {"op": "program_encsort" if enc else "program", "type": tname, "cols": cols, "ops": [op], "final": fin}
+                yield {"op": "program", "type": tname, "cols": cols, "ops": [op], "final": fin}
         # rows <-> table
         w = len(kinds)
         for rows in ([], [[5] * w], [[5] * w, [6] * w, [7] * w], [[5] * (w + 1)], [[5] * (w + 1), [6] * (w + 1)]):
@@ -440,7 +446,7 @@ def cases(tier, rng):
 
 
 def nontrivial(c):
-    if c["op"] not in ("program", "program_encsort"):
+    if c["op"] not in ("program",):
         return True
     kinds = _mods()["classes"][c["type"]][1]
     n = len(c["cols"][0]) if c["cols"] else 0
@@ -500,7 +506,7 @@ def impl(c):
     m = _mods()
     cls, kinds, names = m["classes"][c["type"]]
     kinds, names = list(kinds), list(names)
-    if c["op"] in ("program", "program_encsort"):
+    if c["op"] in ("program",):
         try:
             t = _table(m, c["type"], c["cols"])
         except Exception as e:
@@ -599,7 +605,7 @@ def agree(c, got, exp):
         return isinstance(got, dict) and (("ok" in got) == ("ok" in exp))
     if not _same(c, got, exp):
         return False
-    if "err" in exp or c["op"] not in ("program", "program_encsort"):
+    if "err" in exp or c["op"] not in ("program",):
         return True
     return got.get("unchanged") is True and all(v is True for v in got["final"].values())
 
@@ -608,9 +614,31 @@ def agree_model(c, got, m):
     return _same(c, got, m)
 
 
+def _codes(c):
+    out = set()
+    for col in c["cols"]:
+        out.update(col)
+    for op in c["ops"]:
+        for k in ("other", "new"):
+            for col in op.get(k, []):
+                out.update(col)
+        out.update(op.get("c", []))
+    return sorted(out)
+
+
 def model_request(c):
     if c["op"] == "program":
-        return {"op": "program", "cols": c["cols"], "ops": [{k: v for k, v in op.items() if k not in ("py", "kinds")} for op in c["ops"]]}
+        ops = []
+        codes = None
+        for op in c["ops"]:
+            o = {k: v for k, v in op.items() if k not in ("py", "kinds", "kind")}
+            if op["k"] == "sort":
+                codes = codes if codes is not None else _codes(c)
+                order = sorted(set(_skey(op["kind"], x) for x in codes))
+                rank = {v: i for i, v in enumerate(order)}
+                o["keys"] = [[x, rank[_skey(op["kind"], x)]] for x in codes]
+            ops.append(o)
+        return {"op": "program", "cols": c["cols"], "ops": ops}
     if c["op"] == "roundtrip":
         return {"op": "roundtrip", "rows": c["rows"], "width": c["width"]}
     return None
